@@ -38,6 +38,7 @@ def config_for(i, tier='quick'):
         dict(fault='spurious', line=False),
         dict(fault='none', line=False, edeadlk=False),
         dict(fault='mix', line=True),
+        dict(fault='interrupt', line=False),
     ]
     c = dict(classes[i % len(classes)])
     c.setdefault('edeadlk', True)
@@ -189,6 +190,9 @@ class Faults:
         mix = self.kind == 'mix'
         self.syscall_on = self.kind == 'syscall' or mix
         self.spurious_on = self.kind == 'spurious' or mix
+        self.interrupt_on = self.kind == 'interrupt' or mix
+        self.interrupts_left = 2
+        self.interrupted = {}        # vthread name -> number of interrupts delivered, not yet seen
         self.death_on = self.kind == 'death' or (mix and tape.draw(3, 'mix.death') == 2)
         self.death_step = None
         self.death_pid = None
@@ -200,6 +204,22 @@ class Faults:
         if not self.spurious_on:
             return False
         return self.tape.chance(1, 6, 'fault.spurious')
+
+    def interrupt(self, k):
+        """KeyboardInterrupt for a thread that is about to block while acquiring a blocking
+        request (Ctrl-C); the thread catches it and carries on with its program."""
+        if not self.interrupt_on or self.interrupts_left <= 0:
+            return False
+        vt = k.me()
+        orc = self.oracle[0]
+        frames = orc.inflight.get(vt) or []
+        if orc.phase.get(vt) != 'acq' or not frames or not frames[-1]['req']['blocking']:
+            return False
+        if not self.tape.chance(1, 10, 'fault.interrupt'):
+            return False
+        self.interrupts_left -= 1
+        self.interrupted[vt.name] = self.interrupted.get(vt.name, 0) + 1
+        return True
 
     def syscall(self, k, site, pid, **kw):
         if not self.syscall_on or self.budget <= 0:
@@ -352,7 +372,7 @@ class Oracle:
         self.phase[vt] = frames[-1]['phase'] if frames else 'idle'
         req = fr['req']
         self.count('outcome.' + outcome)
-        if outcome == 'granted':
+        if outcome in ('granted', 'interrupted'):
             return
         inode = fr['inode']
         if outcome == 'wouldblock':
@@ -608,6 +628,14 @@ def run_one(cfg, tape: Tape, want_trace=False):
                     finally:
                         if not vt.killed:
                             oracle.on_exit(vt, fr)
+            except KeyboardInterrupt as e:
+                if vt.killed:
+                    raise SimAbort()
+                if not entered and faults.interrupted.get(vt.name, 0) > 0:
+                    faults.interrupted[vt.name] -= 1
+                    oracle.on_done(vt, fr, 'interrupted')
+                else:
+                    oracle.on_done(vt, fr, 'error', e)
             except _Propagated:
                 if not vt.killed:
                     oracle.on_done(vt, fr, 'granted' if entered else 'error',
